@@ -325,6 +325,7 @@ type wclient struct {
 	attached bool
 	stopped  bool // the script stopped it (TEARDOWN / disconnect)
 	closedBy string
+	framing  string // malformed server output met by the strict reader
 }
 
 func (c *wclient) String() string { return fmt.Sprintf("client %d (%s, stream #%d)", c.id, c.kind, c.gen) }
@@ -609,8 +610,12 @@ func (c *wclient) closed() string {
 				if errors.As(err, &fe) {
 					if fe.Truncated {
 						c.rcEnded = fmt.Errorf("connection ended inside an item: %s", fe.What)
-					} else if c.rc.IsWS() {
-						continue
+					} else if fe.What == "empty ws message" {
+						continue // the reader skipped it
+					} else {
+						// malformed output (C13's business): the strict reader stays there and
+						// cannot tell any more whether the connection ended
+						c.framing = fe.Error()
 					}
 					break
 				}
@@ -653,6 +658,9 @@ func (c *wclient) closed() string {
 
 // halfClosed describes a WSP session of which only one channel ended (diagnostics).
 func (c *wclient) halfClosed() string {
+	if c.framing != "" {
+		return "(the client's strict reader is stuck at malformed server output: " + c.framing + ")"
+	}
 	if c.kind == "wsp" && c.ctl != nil && c.data != nil {
 		return fmt.Sprintf("control ended: %v, data ended: %v", c.ctl.ended(), c.data.ended())
 	}
